@@ -178,6 +178,14 @@ def build():
     if len(re.findall(r"None\s*=>\s*return\s+Err\(ServerError::unsigned\(TsigRcode::BADKEY\)\)", sr)) != 2:
         raise GenError("server_request: BADKEY arms")
 
+    # ---- ServerError::build_message: is a FORMERR answered without looking for the TSIG record again?
+    bm = re.sub(r"\s+", "", fn_body(src, "build_message", after="impl<K: AsRef<Key>> ServerError<K>"))
+    plain = "ifmatches!(self.0,ServerErrorInner::Unsigned{error}iferror==TsigRcode::FORMERR){returnOk(builder.start_answer(msg,Rcode::FORMERR)?.additional());}"
+    rest = "letbuilder=builder.start_answer(msg,Rcode::NOTAUTH)?;letmutbuilder=builder.additional();matchself.0{ServerErrorInner::Unsigned{error}=>{lettsig={MessageTsig::from_message(msg).expect(\"missingormalformedTSIGrecord\")};"
+    if bm.startswith(plain + rest): defs.append(("formerr_plain_response", "bool", "true"))
+    elif bm.startswith(rest): defs.append(("formerr_plain_response", "bool", "false"))
+    else: raise GenError("ServerError::build_message: unrecognised shape of the unsigned arm")
+
     # ---- ServerSequence: which MAC goes back into the context
     sa = re.sub(r"\s+", "", fn_body(src, "answer_with_fudge", after="impl<K: AsRef<Key>> ServerSequence<K>"))
     if "self.context.apply_signature(mac.as_ref());letmac=self.key().signature_slice(&mac);" in sa:
